@@ -5,9 +5,10 @@ A scenario is the sequence of environment steps of one behaviour of spec/AioPort
   | {"a": "release", "c": gate} | {"a": "exit", "c": 0/1 (leave with an exception)}
 It is performed on a real portal started with ``anyio.from_thread.start_blocking_portal``; after
 every step the harness waits until the system is quiescent (caller threads back, every future
-either done or its callable parked on a gate, the loop idle), then reports the futures that have
-become done and a "quiescent" event.  All events get their order under one lock.  The recorded
-trace is judged by TLC (spec/T_Portal.tla = spec/P_Portal.tla + trace binding), not here.
+either done or its callable parked on a gate, the loop idle; a caller thread may still be inside
+start_task() only while its "stw" callable waits at a gate the environment has not opened), then
+reports the futures that have become done and a "quiescent" event.  All events get their order
+under one lock.  The recorded trace is judged by TLC (spec/T_Portal.tla = spec/P_Portal.tla + trace binding), not here.
 
 This is a coarser binding than the handle-exact replay of the asyncio-only checks: real threads
 cannot be stepped, so the interleavings INSIDE a step are whatever the machine does.
@@ -23,10 +24,11 @@ from concurrent.futures import CancelledError as FutCancelled
 from concurrent.futures import Future
 from typing import Any
 
-SOON = {"sync", "ret", "fail", "block", "stop0", "stop1"}
-START = {"st", "stfail"}
-GATED = {"block", "st"}
-NTHREADS = 3
+SOON = {"sync", "ret", "fail", "block", "stop0", "stop1", "stop01"}
+START = {"st", "stw", "stfail"}
+GATED = {"block", "st", "stw"}
+NTHREADS = 4            # one more than the model's caller threads (NT <= 3): a "stw" call keeps its
+                        # thread inside start_task(); Future.cancel() still needs a free thread
 STEP_TIMEOUT = 8.0      # a step that should complete (call returns, cancel returns) - else "stuck"
 SETTLE_TIMEOUT = 6.0    # a future that should become done / the portal exit that should complete
 PING_HOPS = 8
@@ -76,6 +78,7 @@ class Caller(threading.Thread):
         self.idx = idx
         self.q: queue.Queue = queue.Queue()
         self.busy = threading.Event()
+        self.stw: int | None = None     # the "stw" call this thread is performing start_task() for
 
     def run(self) -> None:
         while True:
@@ -85,15 +88,20 @@ class Caller(threading.Thread):
             try:
                 fn()
             finally:
+                self.stw = None
                 self.busy.clear()
 
-    def do(self, fn: Any) -> None:
+    def do(self, fn: Any, stw: int | None = None) -> None:
+        self.stw = stw
         self.busy.set()
         self.q.put(fn)
 
-    def wait_idle(self, timeout: float) -> bool:
+    def wait_idle(self, timeout: float, excused: Any = None) -> bool:
+        """Wait until the thread is back, or ``excused(thread)`` says that it is legitimately blocked."""
         end = time.monotonic() + timeout
         while self.busy.is_set():
+            if excused is not None and excused(self):
+                return True
             if time.monotonic() > end:
                 return False
             time.sleep(0.0003)
@@ -120,6 +128,7 @@ class Run:
         self.portal_thread: threading.Thread | None = None
         self.gates: dict[int, Any] = {}
         self.flags: dict[str, Any] = {}
+        self.callers: list[Caller] = []
         self.cancelled_in_scenario = {s["c"] for s in steps if s["a"] == "cancel"}
 
     # ---------------------------------------------------------------- the owner of the portal
@@ -179,13 +188,34 @@ class Run:
             rec.emit(ev="bend", c=c, how="ret")
             return val(c)
 
+        async def stw_fn(*, task_status: Any) -> int:
+            from anyio import get_cancelled_exc_class
+
+            rec.emit(ev="exec", c=c)
+            try:
+                await gates[c].wait()           # blocks BEFORE started(): the caller is inside start_task()
+            except get_cancelled_exc_class():
+                rec.emit(ev="bend", c=c, how="cancelled")
+                raise
+            except BaseException:
+                rec.emit(ev="bend", c=c, how="raise")
+                raise
+            task_status.started(sval(c))
+            rec.emit(ev="bend", c=c, how="ret")
+            return val(c)
+
         async def stop_fn() -> None:
             rec.emit(ev="exec", c=c)
-            await portal.stop(kind == "stop1")
+            if kind == "stop01":                # graceful stop, then forced stop (no checkpoint between)
+                await portal.stop()
+                await portal.stop(cancel_remaining=True)
+            else:
+                await portal.stop(kind == "stop1")
             rec.emit(ev="bend", c=c, how="ret")
 
         return {"sync": sync_fn, "ret": ret_fn, "fail": fail_fn, "stfail": fail_fn, "block": block_fn,
-                "st": block_fn, "stop0": stop_fn, "stop1": stop_fn}[kind]
+                "st": block_fn, "stw": stw_fn, "stop0": stop_fn, "stop1": stop_fn,
+                "stop01": stop_fn}[kind]
 
     # ---------------------------------------------------------------- steps
     def issue(self, t: int, c: int, kind: str, via_call: bool) -> None:
@@ -281,14 +311,33 @@ class Run:
             time.sleep(0.0002)
         return True
 
+    def excused(self, th: Caller) -> bool:
+        """The busy thread is inside start_task() of a "stw" call whose body runs (it has not ended)
+        and waits at a gate the environment has not opened: it stays there until the environment acts.
+        In every other case a busy thread is expected to come back on its own."""
+        c = th.stw
+        return c is not None and c not in self.released and c in self.running_bodies()
+
     def settled(self) -> bool:
         """Nothing is expected to happen any more without the environment."""
         running = self.running_bodies()
-        for c, f in self.futs.items():
+        for th in self.callers:
+            if th.busy.is_set() and not self.excused(th):
+                return False            # a caller that should have been answered is still inside its call
+        for c, f in list(self.futs.items()):
             if not f.done() and c not in running:
                 return False            # accepted, not running (not yet / no longer), not answered
-        if self.exit_begun and not self.exited.is_set() and not running:
-            return False                # nothing holds the portal: the exit must complete
+        if self.exit_begun and not self.exited.is_set():
+            if not running:
+                return False            # nothing holds the portal: the exit must complete
+            # the owner thread must have got as far as its portal.call(portal.stop, ...): that call has
+            # run (or was refused) once the portal no longer accepts calls / its stop event is set.
+            # Read-only peek at private attributes; without them (renamed) this degrades to the
+            # time-based settling of the ping.
+            stop_event = getattr(self.portal, "_stop_event", None)
+            if (getattr(self.portal, "_event_loop_thread_id", None) is not None
+                    and stop_event is not None and not stop_event.is_set()):
+                return False
         return True
 
     def quiesce(self, callers: list[Caller]) -> None:
@@ -297,14 +346,22 @@ class Run:
         failed = "stuck_thread" in self.flags or "unsettled" in self.flags
         t_step = time.monotonic() + (0.3 if failed else STEP_TIMEOUT)
         for th in callers:
-            if not th.wait_idle(max(0.0, t_step - time.monotonic())):
+            # a thread inside start_task() of a waiting "stw" callable is excused (settled() looks at it
+            # again after every ping: it must come back once the body has ended or the gate is open)
+            if not th.wait_idle(max(0.0, t_step - time.monotonic()), self.excused):
                 self.flags["stuck_thread"] = th.idx
+        failed = "stuck_thread" in self.flags or "unsettled" in self.flags
         t_settle = time.monotonic() + (0.3 if failed else SETTLE_TIMEOUT)
+
+        def snap() -> tuple:
+            return (tuple(f.done() for f in list(self.futs.values())),
+                    tuple(th.busy.is_set() for th in callers))
+
         while True:
             n0 = self.rec.n()
-            states0 = tuple(f.done() for f in self.futs.values())
+            states0 = snap()
             ok = self.ping(1.0)
-            stable = ok and n0 == self.rec.n() and states0 == tuple(f.done() for f in self.futs.values())
+            stable = ok and n0 == self.rec.n() and states0 == snap()
             if stable and self.settled():
                 break
             if time.monotonic() > t_settle:
@@ -327,8 +384,7 @@ class Run:
         return ("exc", 999)
 
     def observe(self) -> None:
-        for c in sorted(self.futs):
-            f = self.futs[c]
+        for c, f in sorted(self.futs.items()):
             if c not in self.observed and f.done():
                 out = self.outcome(f)
                 self.observed[c] = out
@@ -359,7 +415,7 @@ class Run:
         self.flags["loop"] = type(self.loop).__module__.split(".")[0]
         ids = sorted({s["c"] for s in self.steps if s["a"] == "issue"})
         self.gates = portal.call(lambda: {c: anyio.Event() for c in ids})
-        callers = [Caller(i + 1) for i in range(NTHREADS)]
+        callers = self.callers = [Caller(i + 1) for i in range(NTHREADS)]
         for th in callers:
             th.start()
         helper = callers[0]
@@ -395,7 +451,7 @@ class Run:
             th = callers[t] if callers[t] in free else free[0]
             via_call = (kind in SOON and kind != "block" and c not in self.cancelled_in_scenario
                         and self.rng.random() < 0.4)
-            th.do(lambda: self.issue(th.idx, c, kind, via_call))
+            th.do(lambda: self.issue(th.idx, c, kind, via_call), stw=c if kind == "stw" else None)
         elif a == "cancel":
             c = s["c"]
             if c not in self.futs:
